@@ -23,7 +23,10 @@ LEVEL_NOTE = (
     "unknown; [frame]/ID/Type/DLC/Var/Mux/unknown).  The relation between bytes on disk and those statements (regexes, str.split, "
     "shlex-like splitting, Decimal/attrs converters, the other statement kinds, all of post-processing except the cycle-time "
     "conversion) is NOT proved; it is decided on the real code by the generative search of this harness (every admissible insertion "
-    "position, every byte cut) and tied to the model by a differential run on frame/signal skeletons.")
+    "position, every byte cut) and tied to the model by a differential run on frame/signal skeletons.  "
+    "The model follows the readers as they are: a BA_/BA_DEF_DEF_ line whose value is present but neither a number nor a quoted "
+    "string is stored, not skipped (recorded finding; C20_dbc_ba_value_not_skipped_refuted, the fault-isolation theorems for the "
+    "current reader exclude that statement shape by the visible predicate dbc_malformed = dbc_malformed_gen false).")
 
 # ------------------------------------------------------------------------------------------------------------------
 # running the real readers
@@ -970,6 +973,7 @@ def run(chk):
                                bad_lines=f.get("nbad"), cuts=f.get("ncuts"), every_byte_cut=f.get("allcuts")) for f in FILES]
     chk.exhaustive = all(f.get("allcuts") for f in FILES) and thorough
     _CACHE.clear()
+    known_keys = {k.get("key") for k in chk.known}
     ctx = multiprocessing.get_context("fork")
     with ctx.Pool(min(core.NPROC, 16)) as pool:
         for res in pool.imap_unordered(work, items, chunksize=1):
@@ -979,7 +983,8 @@ def run(chk):
                 chk.count(k, n)
             for key, what, inp, exp, obs in res["viol"]:
                 chk.count("failing-" + key)
-                if chk.hist["failing-" + key] <= 1:          # core keeps 50 in total: leave room for every failure class
+                # recorded findings are only counted by core; of any other class core keeps 50 in total: one replay per class
+                if key in known_keys or chk.hist["failing-" + key] <= 1:
                     chk.violation(key, what, inp, exp, obs)
     f0 = FILES[0]
     chk.sample(dict(file=f0["name"], fault="line inserted before line %d" % (f0["positions"][3] + 1), line='BA_ "GenMsgCycleTime" BO_ 291 abc;',
@@ -1133,7 +1138,10 @@ def dbc_tie_inserts(ctx, I, rng):
         ([2] + STR(I("TieSig")) + [0] + BAD + BAD + BAD + BAD + BAD + BAD + BAD, ' SG_ TieSig'),
         # BA_
         ([3, 1] + NUM(fid) + NUM(I("55")), 'BA_ "GenMsgCycleTime" BO_ %d 55;' % fid),
-        ([3, 1] + NUM(fid) + BAD, 'BA_ "GenMsgCycleTime" BO_ %d abc;' % fid),
+        # value present but neither number nor quoted string: the reader as it is stores it (known finding); tag 3 = other token
+        ([3, 1] + NUM(fid) + [3, I("abc")], 'BA_ "GenMsgCycleTime" BO_ %d abc;' % fid),
+        ([3, 1] + NUM(fid) + [3, I('"a')], 'BA_ "GenMsgCycleTime" BO_ %d "a;b' % fid),
+        ([3, I("FrHexAttr")] + NUM(fid) + [3, I("xyz")], 'BA_ "FrHexAttr" BO_ %d xyz;' % fid),
         ([3, 1] + NUM(fid) + STR(I('"fast"')), 'BA_ "GenMsgCycleTime" BO_ %d "fast";' % fid),
         ([3, 1] + BAD + NUM(I("55")), 'BA_ "GenMsgCycleTime" BO_ abc 55;'),
         ([3, 1] + NUM(fid) + BAD, 'BA_ "GenMsgCycleTime" BO_ %d 55' % fid),
@@ -1141,7 +1149,7 @@ def dbc_tie_inserts(ctx, I, rng):
         ([3, 1] + NUM(999) + NUM(I("55")), 'BA_ "GenMsgCycleTime" BO_ 999 55;'),
         ([3, I("FrHexAttr")] + NUM(fid) + NUM(I("77")), 'BA_ "FrHexAttr" BO_ %d 77;' % fid),
         ([4, I("SigFloatAttr")] + NUM(sid) + SN + NUM(I("2.5")), 'BA_ "SigFloatAttr" SG_ %d %s 2.5;' % (sid, sname)),
-        ([4, I("SigFloatAttr")] + NUM(sid) + SN + BAD, 'BA_ "SigFloatAttr" SG_ %d %s abc;' % (sid, sname)),
+        ([4, I("SigFloatAttr")] + NUM(sid) + SN + [3, I("abc")], 'BA_ "SigFloatAttr" SG_ %d %s abc;' % (sid, sname)),
         ([4, I("SigFloatAttr")] + BAD + SN + NUM(I("2.5")), 'BA_ "SigFloatAttr" SG_ abc %s 2.5;' % sname),
         ([4, I("SigFloatAttr")] + NUM(sid) + STR(I("NoSuchSig")) + NUM(I("2.5")), 'BA_ "SigFloatAttr" SG_ %d NoSuchSig 2.5;' % sid),
         ([4, I("SigFloatAttr")] + NUM(sid) + SN + BAD, 'BA_ "SigFloatAttr" SG_ %d %s' % (sid, sname)),
